@@ -2,9 +2,12 @@
    Database-level model; [drun] runs any list of API calls (continuing after failed ones) and
    the store may fail any of its writes ([budget]).  Only the property theorems. *)
 From Coq Require Import List NArith Bool.
+From Coq.Init Require Import Byte.
 From PyTrie.Base Require Import Bytes Result AMap.
 From PyTrie.Db Require Import ScratchDb.
-From PyTrie.Hexary Require Import Raw D D_safety D_read.
+From PyTrie.Base Require Import Keccak Bytes_proofs.
+From PyTrie.Hexary Require Import Raw D D_safety D_read D_history Run.
+From PyTrie.Hexary Require Refine_write.
 Import ListNotations.
 
 (* every operation — whatever its outcome, including a failing database write — only adds
@@ -71,3 +74,46 @@ Theorem C04_old_roots_same_or_missing : forall BNH m1 m2 r k,
                aget m1 h = None /\ aget m2 h <> None).
 Proof. exact D_read.read_same_or_missing_get. Qed.
 Print Assumptions C04_old_roots_same_or_missing.
+
+(* END TO END.  Put together: whatever could be read from ANY root before a history of API calls (each possibly
+   aborted by a failing database write at any index) reads identically afterwards - from a freshly opened trie or
+   an at_root snapshot, whether the snapshot was opened before or after the writes.  The premise is the explicit
+   finite one: no Keccak collision among the bodies of the old and of the new store. *)
+Theorem C04_old_roots_after_history : forall H BNH ops t s,
+  t_prune t = false -> t_pending t = None -> t_db t = DPlain s ->
+  content_addressed H (cells s) ->
+  forall s', t_db (drun H BNH ops t) = DPlain s' ->
+  cf H (bodies (cells s) ++ bodies (cells s')) ->
+  forall r k v, fst (get BNH k (plain (cells s) r)) = Ok v -> fst (get BNH k (plain (cells s') r)) = Ok v.
+Proof. exact D_history.old_roots_after_history. Qed.
+Print Assumptions C04_old_roots_after_history.
+
+(* the same across a whole squash_changes block, including a commit that fails midway *)
+Theorem C04_old_roots_after_batch : forall H BNH outer s ops res t',
+  t_prune outer = false -> t_pending outer = None -> t_db outer = DPlain s ->
+  content_addressed H (cells s) ->
+  batch_commit H BNH outer (drun H BNH ops (batch_begin outer)) = (res, t') ->
+  forall s', t_db t' = DPlain s' ->
+  cf H (bodies (cells s) ++ bodies (cells s')) ->
+  forall r k v, fst (get BNH k (plain (cells s) r)) = Ok v -> fst (get BNH k (plain (cells s') r)) = Ok v.
+Proof. exact D_history.old_roots_after_batch. Qed.
+Print Assumptions C04_old_roots_after_batch.
+
+(* Non-vacuity with the real Keccak-256: a trie with two hashed leaves, then a history in which the backing store
+   fails its 2nd write during an overwrite, followed by a delete that succeeds; the premises hold (checked by
+   computation) and the old root still reads its old value while the current root does not. *)
+Example C04_end_to_end_example :
+  let K := keccak256 in
+  let BN := Run.BLANK_NODE_HASH in
+  let t0 := drun K BN [DSet (B 2 0x1234) (repeat_byte x61 40); DSet (B 2 0x1256) (repeat_byte x62 40)] (empty_trie BN false) in
+  let s := outer_store t0 in
+  let t1 := Run.set_budget t0 (Some 1%nat) in
+  let t2 := drun K BN [DSet (B 2 0x1234) (repeat_byte x63 40)] t1 in            (* aborted by the failing 2nd write *)
+  let t3 := drun K BN [DDelete (B 2 0x1256)] (Run.set_budget t2 None) in
+  let s' := outer_store t3 in
+  t_root t2 = t_root t0 /\ t_root t3 <> t_root t0 /\
+  forallb (fun e : bytes * bytes => bytes_eqb (fst e) (K (snd e))) (cells s) = true /\      (* content-addressed *)
+  Refine_write.cf_pairs (map (fun b => (b, K b)) (bodies (cells s) ++ bodies (cells s'))) = true /\
+  fst (get BN (B 2 0x1256) (plain (cells s') (t_root t0))) = Ok (repeat_byte x62 40) /\
+  fst (get BN (B 2 0x1256) (plain (cells s') (t_root t3))) = Ok [].
+Proof. vm_compute. repeat split; try reflexivity; discriminate. Qed.
